@@ -142,6 +142,7 @@ class Sim:
         self.draining = False
         self.hang_table = None
         self.crash_at_step = None
+        self.clock_jump = None     # (step, delta seconds): the SDK's wall clock jumps mid-invocation
         self.on_progress = None
         self.line_events = 0
         self.timeouts = 0
@@ -226,6 +227,11 @@ class Sim:
                 self.stop_reason = "step-budget"
                 self._snapshot()
                 return None
+            if self.clock_jump is not None and self.steps >= self.clock_jump[0]:
+                self.sdk_skew += self.clock_jump[1]
+                self.clock_jump = None
+                if self.on_progress:
+                    self.on_progress("clock-jump")
             if self.crash_at_step is not None and self.steps >= self.crash_at_step:
                 self.crash_at_step = None
                 self.stop_reason = "crash"
